@@ -1,8 +1,9 @@
 (** C19 — strongly connected components are correct and dependency-ordered.
     Only property theorems live here, each closed by [exact] and followed by Print Assumptions. *)
-From Coq Require Import List Arith Bool.
+From Coq Require Import List Arith Bool Permutation.
 Import ListNotations.
 Require Import Fggs.Model.SCC Fggs.Proofs.SCC_bounded Fggs.Proofs.SCC_ntgraph.
+Require Import Fggs.Proofs.SCC_checker Fggs.Proofs.SCC_tarjan.
 
 (** nonterminal_graph has an edge X->Y exactly when some rule for X has a rhs edge labelled by
     the nonterminal Y, and contains every nonterminal, including those without rules. *)
@@ -27,7 +28,57 @@ Theorem C19_ntg_oracle_sound :
 Proof. exact ntg_ok_sound. Qed.
 Print Assumptions C19_ntg_oracle_sound.
 
-(** Tarjan as coded, bounded: all 66 067 labelled digraphs on at most 4 vertices, and all
+(** The oracle's reachability test is exact: the bounded iteration [reach_n (length g)]
+    reaches its fixed point ([path] = reflexive-transitive closure of the edge relation). *)
+Theorem C19_reaches_correct :
+  forall g u v, closed g = true -> In u (verts g) -> (reaches g u v = true <-> path g u v).
+Proof. exact reaches_iff. Qed.
+Print Assumptions C19_reaches_correct.
+
+(** The executable oracle [scc_ok] accepts exactly the dependency-ordered SCC decompositions
+    ([spec], spelled out): the components partition the vertices, none is empty, two vertices
+    share a component iff they are mutually reachable, and no edge leads from a component to a
+    later one in the list. *)
+Theorem C19_checker :
+  forall g cs, closed g = true ->
+    (scc_ok g cs = true <->
+     NoDup (concat cs) /\ Permutation (concat cs) (verts g)
+     /\ (forall c, In c cs -> c <> [])
+     /\ (forall u v, In u (verts g) -> In v (verts g) ->
+           ((exists c, In c cs /\ In u c /\ In v c) <-> (path g u v /\ path g v u)))
+     /\ (forall l1 c l2 d u v, cs = l1 ++ c :: l2 -> In d l2 -> In u c -> In v d -> ~ In v (succs g u))).
+Proof. exact scc_ok_spec. Qed.
+Print Assumptions C19_checker.
+
+(** Tarjan as coded, unbounded: on every closed graph (distinct keys, every successor a key --
+    otherwise Python raises KeyError) the fuel [S (length g)] never runs out and the output
+    lists every vertex exactly once ... *)
+Theorem C19_partition :
+  forall g, closed g = true ->
+    exists cs, scc g = Some cs /\ NoDup (concat cs) /\ Permutation (concat cs) (verts g).
+Proof. exact tarjan_partition. Qed.
+Print Assumptions C19_partition.
+
+(** ... is accepted by the oracle ... *)
+Theorem C19_tarjan_correct :
+  forall g, closed g = true -> exists cs, scc g = Some cs /\ scc_ok g cs = true.
+Proof. exact tarjan_correct. Qed.
+Print Assumptions C19_tarjan_correct.
+
+(** ... i.e. is the dependency-ordered SCC decomposition (same statement, Prop level). *)
+Theorem C19_tarjan_correct_spec :
+  forall g, closed g = true ->
+    exists cs, scc g = Some cs /\
+     NoDup (concat cs) /\ Permutation (concat cs) (verts g)
+     /\ (forall c, In c cs -> c <> [])
+     /\ (forall u v, In u (verts g) -> In v (verts g) ->
+           ((exists c, In c cs /\ In u c /\ In v c) <-> (path g u v /\ path g v u)))
+     /\ (forall l1 c l2 d u v, cs = l1 ++ c :: l2 -> In d l2 -> In u c -> In v d -> ~ In v (succs g u)).
+Proof. exact tarjan_correct_spec. Qed.
+Print Assumptions C19_tarjan_correct_spec.
+
+(** Tarjan as coded, bounded (kept as an independent in-kernel cross-check of the model and
+    the oracle): all 66 067 labelled digraphs on at most 4 vertices, and all
     insertion orders on 3 vertices (finite-domain proofs; bound in the name). *)
 Theorem C19_tarjan_correct_upto4 :
   forall g, In g graphs_upto4 -> exists cs, scc g = Some cs /\ scc_ok g cs = true.
